@@ -205,6 +205,31 @@ func DegenerateShapes(r *R) []Degenerate {
 			{Name: "C", Input: ".d.noown.All", Output: ".d.noown.All"}}}}
 		add("messages_without_own_fields", f)
 	}
+	// 11b*. comments of every shape protoc can deliver: a paragraph break (an empty line between two paragraphs), a
+	// whitespace-only line, a linter directive line, a comment that is only a line break, an empty one, a very long
+	// line, non-ASCII text — on the service, an rpc, messages and fields (incl. a path-bound one)
+	{
+		f := mk("cmt", "d.cmt")
+		f.Messages = []*ir.Message{
+			{Name: "Q", Fields: []*ir.Field{{Name: "id", Number: 1, Kind: "string"}, {Name: "note", Number: 2, Kind: "string"}, {Name: "n", Number: 3, Kind: "int32"}}},
+			{Name: "A", Fields: []*ir.Field{{Name: "ok", Number: 1, Kind: "bool"}, {Name: "why", Number: 2, Kind: "string"}}}}
+		f.Services = []*ir.Service{{Name: "Svc", Methods: []*ir.Method{
+			{Name: "Get", Input: ".d.cmt.Q", Output: ".d.cmt.A", Config: &ir.HTTPConfig{Path: "/q/{id}", Method: "POST"}},
+			{Name: "Put", Input: ".d.cmt.Q", Output: ".d.cmt.A"}}}}
+		f.Comments = map[string]string{
+			"svc:Svc":      " Order lookup.\n\n Returns what it finds.\n",
+			"rpc:Svc.Get":  " Looks an order up.\n \t \n Second paragraph after a whitespace-only line.\n",
+			"rpc:Svc.Put":  " buf:lint:ignore RPC_REQUEST_STANDARD_NAME\n Stores.\n",
+			"msg:Q":        "\n",
+			"msg:A":        "",
+			"field:Q.id":   " The identifier.\n\n\n Two empty lines above.\n",
+			"field:Q.note": " " + strings.Repeat("long ", 4000) + "\n",
+			"field:Q.n":    " Zürich — 数 — \U0001D11E\n\n protolint:disable:next FIELD_NAMES_LOWER_SNAKE_CASE\n",
+			"field:A.ok":   " \n",
+			"field:A.why":  "no leading space\nsecond line\n",
+		}
+		add("comments_of_every_shape", f)
+	}
 	// 11b'. headers of every declared type with examples that are no value of that type (and some that are)
 	{
 		f := mk("hdrex", "d.hdrex")
